@@ -16,11 +16,15 @@ Proof. exact mu_h_is_sum. Qed.
 
 Section Measure.
   Variable m1 : Q -> Q -> Q.
+  (* total additivity of int x nu: satisfiable when int_{|x|<1} |x| nu < inf (finite variation, or any representation that is
+     legitimately declared for the model); for infinite variation see C04_mean_identity_infinite_variation below *)
   Hypothesis m1_add : forall a b c, a <= b -> b <= c -> m1 a c == m1 a b + m1 b c.
   Hypothesis m1_proper : forall a a' b b', a == a' -> b == b' -> m1 a b == m1 a' b'.
   Variables l r pinf : Q.                (* truncation bounds = end points of the axis; pinf stands for np.inf *)
   Hypothesis l_le_r : l <= r.
   Hypothesis pinf_ge_1 : 1 <= pinf.
+  Hypothesis pinf_left : - pinf <= l.     (* np.inf lies beyond both truncation bounds *)
+  Hypothesis pinf_right : r <= pinf.
 
   (* deterministic drift + rate-weighted states == first cumulant per unit time of (a, sigma, nu|[l,r]) in the declared
      representation (+ the model's own drift md, 0 for a Levy model, r-d+omega for the exponential wrapper),
@@ -36,6 +40,32 @@ Section Measure.
     a_tilde (tmass m1 l r) pinf rep fv a + mu_tilde (tmass m1 l r) pinf fv == mean_rate (tmass m1 l r) pinf rep fv a.
   Proof. intros. apply (mean_identity_core m1); assumption. Qed.
 
+  (* the first cumulant in terms of the measure on [l,r]: ZERO: a + int_l^r x nu; CENTER: a; TILDE with finite variation:
+     a + int_l^r x nu; ONEONE: a + int_l^r x nu - int_{[-1,1] cap [l,r]} x nu *)
+  Theorem C04_mean_rate_explicit : forall fv a,
+    mean_rate (tmass m1 l r) pinf 1 fv a == a + m1 l r /\ mean_rate (tmass m1 l r) pinf 2 fv a == a
+    /\ mean_rate (tmass m1 l r) pinf 4 true a == a + m1 l r
+    /\ mean_rate (tmass m1 l r) pinf 3 fv a == a + m1 l r - tmass m1 l r (- (1)) 1.
+  Proof. intros. apply (mean_rate_explicit m1); assumption. Qed.
+
+  (* representation invariance: the four generated conversions change the drift but never the first cumulant *)
+  Theorem C04_conversions_preserve_mean : forall rep fv a, (rep = 1 \/ rep = 2 \/ rep = 3 \/ rep = 4)%Z ->
+    mean_rate (tmass m1 l r) pinf 3 fv (canonical_drift (tmass m1 l r) pinf rep fv a) == mean_rate (tmass m1 l r) pinf rep fv a
+    /\ mean_rate (tmass m1 l r) pinf 1 fv (zero_drift (tmass m1 l r) pinf rep fv a) == mean_rate (tmass m1 l r) pinf rep fv a
+    /\ mean_rate (tmass m1 l r) pinf 2 fv (center_drift (tmass m1 l r) pinf rep fv a) == mean_rate (tmass m1 l r) pinf rep fv a
+    /\ mean_rate (tmass m1 l r) pinf 4 fv (tilde_drift (tmass m1 l r) pinf rep fv a) == mean_rate (tmass m1 l r) pinf rep fv a.
+  Proof. intros. apply (conversions_preserve_mean m1); assumption. Qed.
+
+  (* what the copula chain did before the repair (cut-off of mu_tilde from the JOINT flag): the mean of a margin whose own
+     flag differs from the joint one is off by the margin's int_{-1}^{1} x nu -- finding F-C04-2 *)
+  Theorem C04_joint_flag_bias : forall (mid mass : Q -> Q -> Q) xs o md rep a,
+    (o + 1 < length xs)%nat -> (rep = 1 \/ rep = 2 \/ rep = 3 \/ rep = 4)%Z ->
+    process_drift_v (tmass m1 l r) pinf md rep true false a (compute_mu_h mid mass xs o) + mean_of_rates mid mass xs o
+    == md + mean_rate (tmass m1 l r) pinf rep true a - tmass m1 l r (- (1)) 1
+    /\ process_drift_v (tmass m1 l r) pinf md rep false true a (compute_mu_h mid mass xs o) + mean_of_rates mid mass xs o
+    == md + mean_rate (tmass m1 l r) pinf rep false a + tmass m1 l r (- (1)) 1.
+  Proof. intros. apply (joint_flag_bias m1); assumption. Qed.
+
   Variable m2 : Q -> Q -> Q.
   Hypothesis m2_pos : forall a b, a <= b -> 0 <= m2 a b.
   Hypothesis m2_proper : forall a a' b b', a == a' -> b == b' -> m2 a b == m2 a' b'.
@@ -49,6 +79,21 @@ Section Measure.
     /\ sigma * sigma <= sig_h2 (tmass m2 l r) sigma fv h.
   Proof. intros. apply (variance_added m2); assumption. Qed.
 End Measure.
+
+(* infinite variation (fv = false), compensated representations CENTER / ONEONE / TILDE: the identity holds with NO hypothesis
+   on the first-moment integral (only the tails |x| >= 1 are ever integrated; int |x| nu near 0 may be infinite) *)
+Theorem C04_mean_identity_infinite_variation : forall (m1t : Q -> Q -> Q) pinf (mid mass : Q -> Q -> Q) xs o md rep a,
+  (o + 1 < length xs)%nat -> (rep = 2 \/ rep = 3 \/ rep = 4)%Z ->
+  process_drift m1t pinf md rep false a (compute_mu_h mid mass xs o) + mean_of_rates mid mass xs o
+  == md + mean_rate m1t pinf rep false a.
+Proof. exact mean_identity_iv. Qed.
+
+(* each margin of the (repaired) copula chain: MarkovChainLevyCopula.initialisation computes one drift per margin with the
+   margin's own triplet, flag and axis; every margin reproduces its own mean *)
+Theorem C04_copula_margins : forall mid ms, Forall cm_ok ms ->
+  Forall (fun m => cm_drift mid m + mean_of_rates mid (cm_mass m) (cm_xs m) (cm_o m)
+                   == cm_md m + mean_rate (cm_m1t m) (cm_pinf m) (cm_rep m) (cm_fv m) (cm_a m)) ms.
+Proof. exact copula_margins_mean. Qed.
 
 (* the hypotheses on m1 are satisfiable: first moments of the step measures used to run the model *)
 Theorem C04_step_m1_additive : forall ps,
@@ -68,5 +113,10 @@ Proof. vm_compute. repeat split. Qed.
 Print Assumptions C04_mu_h_is_sum.
 Print Assumptions C04_mean_identity.
 Print Assumptions C04_tilde_conversion.
+Print Assumptions C04_mean_rate_explicit.
+Print Assumptions C04_conversions_preserve_mean.
+Print Assumptions C04_joint_flag_bias.
 Print Assumptions C04_variance_added.
+Print Assumptions C04_mean_identity_infinite_variation.
+Print Assumptions C04_copula_margins.
 Print Assumptions C04_step_m1_additive.
